@@ -384,8 +384,8 @@ def install(E):
                 if isinstance(v, EnumVal):
                     v = v.v
                 if isinstance(v, (bool, SymBool)):
-                    v = mk_int(zi(v))
-                out.append(v)
+                    v = mk_int(zi(v), 1)
+                out.append(as_byte(v))
             return out
         if x is None:
             E.throw("TypeError", f"cannot convert 'NoneType' object to {what}")
@@ -534,9 +534,9 @@ def install_methods(E):
         if isinstance(v, EnumVal):
             v = v.v
         if isinstance(v, (bool, SymBool)):
-            v = mk_int(zi(v))
+            v = mk_int(zi(v), 1)
         E_.structural(o)
-        o.items.append(v)
+        o.items.append(as_byte(v))
 
     def m_b_extend(E_, o, x):
         need_mutable(E_, o)
@@ -546,6 +546,7 @@ def install_methods(E):
             src = E_.iterate(x)
             for v in src:
                 E_.check_byte(v)
+            src = [as_byte(v) for v in src]
         E_.structural(o)
         o.items.extend(src)
 
@@ -848,10 +849,11 @@ def install_harness_api(E):
                 raise PathAbort()
             return vals
         xs = []
+        w = hi.bit_length() if lo >= 0 else None
         for i in range(n):
             x = z3.Int(f"{name}_{i}")
             E.add(g_expr_if(E, z3.And(x >= lo, x <= hi)))
-            xs.append(SymInt(x))
+            xs.append(SymInt(x, w))
         return xs
 
     def sym_bytes(name, n):
